@@ -956,11 +956,12 @@ def run_hold_case(case, d):
     kind, value, m = case['kind'], case.get('value', 1), case['holders']
     key = case_key(case)
     clock = instr.Clock(1000.0)
+    fam = 'raise-sequence' if case.get('check') == 'raise' else 'hold-sequence'
 
     def on_sleep(dur):
         raise WouldBlock()
     clock.on_sleep = on_sleep
-    problems, info = [], {'acquired': 0, 'blocked': 0, 'longest_hold': 0.0, 'pickled': 0}
+    problems, info = [], {'acquired': 0, 'blocked': 0, 'longest_hold': 0.0, 'pickled': 0, 'raised': 0}
     ref = RefState(kind, value, m)
     since = [None] * m          # clock value when holder j got in
     handles = []
@@ -992,6 +993,8 @@ def run_hold_case(case, d):
                 ev['entered'].set()
                 if not ev['leave'].wait(60):
                     raise RuntimeError('left inside the barrier-wrapped function')
+                if ev.get('raise') is not None:
+                    raise ev['raise']      # ('BX': the wrapped function ends by raising)
                 return 'ran'
             kw = {'name': key} if case['named'] else {}
             return lk, diskcache.barrier(cj, default_factory(kind, value), **kw)(body)
@@ -1005,7 +1008,7 @@ def run_hold_case(case, d):
                 if step[0] == 'T':
                     clock.advance(step[1])
                     continue
-                j, op = step
+                j, op = step[0], step[1]
                 lk, wrapped = built[j]
                 held_for = max([clock.now - t for t in since if t is not None] or [0.0])
                 if op in ('A', 'BI'):
@@ -1017,6 +1020,7 @@ def run_hold_case(case, d):
                         else:
                             events[j]['entered'].clear()
                             events[j]['leave'].clear()
+                            events[j]['raise'] = None
                             fut = pools[j].submit(wrapped)
                             while not events[j]['entered'].is_set() and not fut.done():
                                 real_time.sleep(0.0002)
@@ -1032,11 +1036,11 @@ def run_hold_case(case, d):
                     if got and not expect:
                         info['longest_hold'] = max(info['longest_hold'], held_for)
                         holders = ref.total() + 1 if kind == 'sem' else 2
-                        problems.append(('hold-sequence:exclusion', '%s by %s got in: %d simultaneous holders of a %s with bound %d; the others have been inside for %g s '
+                        problems.append((fam + ':exclusion', '%s by %s got in: %d simultaneous holders of a %s with bound %d; the others have been inside for %g s '
                                          '(holders by origin %r)' % (what, how(j), holders, kind, ref.bound, held_for, case['via']), i))
                         break
                     if expect and not got:
-                        problems.append(('hold-sequence:free-acquire-blocked', '%s by %s found the %s taken although %d of %d are held' % (
+                        problems.append((fam + ':free-acquire-blocked', '%s by %s found the %s taken although %d of %d are held' % (
                             what, how(j), kind, ref.total(), ref.bound), i))
                         break
                     if got:
@@ -1050,11 +1054,32 @@ def run_hold_case(case, d):
                     try:
                         if op == 'R':
                             pools[j].submit(lk.release).result()
+                        elif op == 'BX':
+                            # the wrapped function ends by raising: its caller gets that very exception, and the call is over
+                            # (what it took is given back: decided by what the NEXT contenders are allowed below)
+                            exc = make_exception(step[2] if len(step) > 2 else 'RuntimeError')
+                            events[j]['raise'] = exc
+                            events[j]['leave'].set()
+                            fut = parked.pop(j)
+                            try:
+                                got_back = fut.result(60)
+                            except AssertionError:
+                                raise
+                            except BaseException as e2:      # noqa: BLE001
+                                if e2 is not exc:
+                                    problems.append((fam + ':other-exception', 'the barrier-wrapped function called by %s raised %r; its caller got %r instead' % (
+                                        how(j), exc, e2), i))
+                                    break
+                            else:
+                                problems.append((fam + ':exception-swallowed', 'the barrier-wrapped function called by %s raised %r; its caller got the result %r '
+                                                 'instead of the exception' % (how(j), exc, got_back), i))
+                                break
+                            info['raised'] += 1
                         else:
                             events[j]['leave'].set()
                             parked.pop(j).result(60)
                     except AssertionError as e:
-                        problems.append(('hold-sequence:release-refused', '%s of the %s by %s, who has held it for %g s, was refused: %s' % (
+                        problems.append((fam + ':release-refused', '%s of the %s by %s, who has held it for %g s, was refused: %s' % (
                             'release' if op == 'R' else 'the release on leaving the barrier-wrapped function', kind, how(j), clock.now - (since[j] or clock.now), e), i))
                         break
                     ref.h[j] -= 1
@@ -1063,7 +1088,7 @@ def run_hold_case(case, d):
         except WouldBlock:
             raise
         except Exception as e:      # noqa: BLE001 -- any other failure of a contender is reported, not swallowed
-            problems.append(('hold-sequence:error', 'a contender raised %r' % (e,), len(case['ops'])))
+            problems.append((fam + ':error', 'a contender raised %r' % (e,), len(case['ops'])))
         finally:
             for ev in events:
                 ev['leave'].set()
@@ -1102,6 +1127,123 @@ def hold_sequences(ctx, res, ncases):
                     'key %r' % (case_key(case),) if case['named'] else 'barrier key derived from the function'), dict(case, failing_op=i)))
     res.extra['hold_sequences'] = ncases
     res.extra['hold_sequence_totals'] = dict(tot, longest_hold_seconds_with_a_blocked_contender=longest)
+
+
+# ---------------------------------------------------------------------------
+# raise sequences: barrier-wrapped functions that END BY RAISING.  The call is over, so what it took is free again
+# (same sequential reference and runner as the hold sequences; operation [j, 'BX', name]: the function holder j is parked in raises)
+
+
+class WrappedAbort(BaseException):
+    """an exception of the wrapped function that is not an Exception (like KeyboardInterrupt / SystemExit)"""
+
+
+class WrappedError(Exception):
+    def __init__(self, *a):
+        Exception.__init__(self, *a)
+        self.payload = {'attempt': 1}
+
+
+RAISED = {'RuntimeError': lambda: RuntimeError('job failed'), 'KeyError': lambda: KeyError('missing'), 'ValueError': lambda: ValueError(3),
+          'OSError': lambda: OSError(5, 'i/o'), 'StopIteration': lambda: StopIteration(), 'Timeout': lambda: diskcache.Timeout('busy'),
+          'WrappedError': lambda: WrappedError('own exception class', 7), 'WrappedAbort': lambda: WrappedAbort('not an Exception'),
+          'ZeroDivisionError': lambda: ZeroDivisionError('division by zero')}
+
+
+def make_exception(name):
+    return RAISED[name]()
+
+
+def gen_raise_case(rng, n):
+    """Like gen_hold_case, with wrapped functions that end by raising ('BX') among those that return ('BO'); the closing phase
+    fills the resource through barrier calls, EVERY one of them raises, and then every contender tries to get in."""
+    kind = ['sem', 'rlock', 'lock'][n % 3]
+    value = [1, 2, 3][(n // 3) % 3] if kind == 'sem' else 1
+    variant = ['cache', 'fanout'][(n // 9) % 2]
+    shards = rng.choice(HOLD_SHARDS) if variant == 'fanout' else 1
+    named = rng.random() < 0.7
+    m = rng.choice([2, 3]) if kind != 'sem' else value + 1
+    vias = ['same'] + [rng.choice(['same', 'same', 'same', 'pickled-recipe', 'pickled-cache']) for _ in range(m - 1)]
+    rng.shuffle(vias)
+    names = sorted(RAISED)
+    ref = RefState(kind, value, m)
+    parked = set()
+    direct = [0] * m
+    ops = []
+
+    def attempt(j, through_barrier=False):
+        op = 'A' if (named and not through_barrier and rng.random() < 0.4) else 'BI'
+        ops.append([j, op])
+        if ref.can_acquire(j):
+            ref.h[j] += 1
+            if op == 'BI':
+                parked.add(j)
+            else:
+                direct[j] += 1
+
+    def leave(j, raising):
+        ops.append([j, 'BX', rng.choice(names)] if raising else [j, 'BO'])
+        parked.discard(j)
+        ref.h[j] -= 1
+    for _ in range(rng.randrange(0, 7)):
+        r = rng.random()
+        free = [j for j in range(m) if j not in parked]
+        if r < 0.1 and ref.total() > 0:
+            ops.append(['T', rng.choice(HOLD_TIMES[:4])])
+        elif r < 0.5 and parked:
+            leave(rng.choice(sorted(parked)), rng.random() < 0.7)
+        elif r < 0.6 and any(direct[j] for j in free):
+            j = rng.choice([j for j in free if direct[j]])
+            ops.append([j, 'R'])
+            direct[j] -= 1
+            ref.h[j] -= 1
+        elif free:
+            attempt(rng.choice(free))
+    # closing phase: everybody leaves; the resource is filled through the barrier; every wrapped call raises
+    for j in sorted(parked):
+        leave(j, rng.random() < 0.7)
+    for j in range(m):
+        while direct[j]:
+            ops.append([j, 'R'])
+            direct[j] -= 1
+            ref.h[j] -= 1
+    order = list(range(m))
+    rng.shuffle(order)
+    for j in order:
+        if j not in parked:
+            attempt(j, through_barrier=True)
+    for j in sorted(parked, key=lambda _: rng.random()):
+        leave(j, True)
+    # ... and now nobody is inside: the next callers get in at once, up to the bound
+    rng.shuffle(order)
+    for j in order:
+        if j not in parked:
+            attempt(j)
+    return {'check': 'raise', 'kind': kind, 'value': value, 'variant': variant, 'shards': shards, 'holders': m, 'named': named,
+            'key': rng.choice(HOLD_KEYS), 'via': vias, 'ops': ops}
+
+
+def raise_sequences(ctx, res, ncases):
+    tot = {'acquired': 0, 'blocked': 0, 'raised': 0}
+    seen = {}
+    for n in range(ncases):
+        case = gen_raise_case(ctx.rng, n)
+        d = ctx.scratch('c15x')
+        try:
+            problems, info = run_hold_case(case, d)
+        finally:
+            shutil.rmtree(d, ignore_errors=True)
+        for k in tot:
+            tot[k] += info[k]
+        res.count(case, nontrivial=info['raised'] > 0)
+        for sig, text, i in problems:
+            seen[sig] = seen.get(sig, 0) + 1
+            if seen[sig] <= 4:
+                res.violations.append(fw.Violation(sig, text + ' (operation %d of %r on %s%s, %s; BX = the barrier-wrapped function the holder is in ends by raising)' % (
+                    i, case['ops'][:i + 1], case['variant'], '[%d shards]' % case['shards'] if case['variant'] == 'fanout' else '',
+                    'key %r' % (case_key(case),) if case['named'] else 'barrier key derived from the function'), dict(case, failing_op=i)))
+    res.extra['raise_sequences'] = ncases
+    res.extra['raise_sequence_totals'] = tot
 
 
 # ---------------------------------------------------------------------------
@@ -1773,7 +1915,10 @@ def run(ctx):
                 'default arguments (key given or derived from the function), holders staying inside (parked in the wrapped function) while the virtual '
                 'clock advances by 0.5 s ... 400 days before the next contender arrives, on Cache and FanoutCache with 1,2,3,4,5,8,13 shards, lock keys '
                 'of several types, each contender using the original object, an unpickled copy of the recipe object, or a recipe built on an unpickled '
-                'cache handle.  Processes: holders forked after the object was built; a recipe object pickled here and unpickled in a forked process, '
+                'cache handle.  Raise sequences (same reference and dimensions): barrier-wrapped functions that END BY RAISING (nine exception classes, one of them '
+                'not an Exception) among ones that return: the caller gets that very exception, and the Lock / RLock depth / semaphore permit taken for the call is '
+                'free for the next contender at once (the resource filled through barrier calls, every one of them raising -- once, twice, three times for '
+                'BoundedSemaphore(1-3) -- and then every contender trying to get in).  Processes: holders forked after the object was built; a recipe object pickled here and unpickled in a forked process, '
                 'holder and contender on either side.  Separately started interpreters (fresh /venv/bin/python processes with explicit, different '
                 'PYTHONHASHSEED values; equal seeds and a plain Cache as controls) on Cache and FanoutCache with 2, 3, 8 and one of 4/5/13 shards: process A builds '
                 'Lock / RLock (depth 1-2) / BoundedSemaphore(1-3, fully or partly taken) / barrier-wrapped functions (each factory, key given or derived) on 15 distinct '
@@ -1800,6 +1945,7 @@ def run(ctx):
     res.extra['max_simultaneous_holders_seen'] = hist['max_holders']
     refusal_sequences(ctx, res, 90 if ctx.quick else 900)
     hold_sequences(ctx, res, 180 if ctx.quick else 1800)
+    raise_sequences(ctx, res, 72 if ctx.quick else 720)
     forked_holders(ctx, res)
     pickled_process_holders(ctx, res, 42 if ctx.quick else 210)
     fresh_process_holders(ctx, res)
@@ -1818,6 +1964,7 @@ def search(ctx, broken):
     run_cases(ctx, res, cases, hist, correspond=False)
     refusal_sequences(ctx, res, 300)
     hold_sequences(ctx, res, 400)
+    raise_sequences(ctx, res, 180)
     forked_holders(ctx, res)
     pickled_process_holders(ctx, res, 84)
     fresh_process_holders(ctx, res)
@@ -1834,11 +1981,11 @@ def replay(payload):
             return not problems
         finally:
             shutil.rmtree(d, ignore_errors=True)
-    if case.get('check') == 'hold':
+    if case.get('check') in ('hold', 'raise'):
         d = tempfile.mkdtemp(prefix='c15r-')
         try:
             problems, info = run_hold_case(case, d)
-            print('hold sequence:', problems, info)
+            print('%s sequence:' % case['check'], problems, info)
             return not problems
         finally:
             shutil.rmtree(d, ignore_errors=True)
